@@ -4,7 +4,7 @@
 export VERIF_NO_EVIDENCE=1
 REPO="${VERIF_REPO:-/repo}"   # a copy of the repository may be used instead (vp run --with-repo: VERIF_REPO=$VP_RUN_REPO)
 cd "$(dirname "$0")/.."
-out=seeded/RESULTS.txt; : > $out.tmp
+out="${RESULTS_OUT:-seeded/RESULTS.txt}"; : > $out.tmp
 for d in seeded/M*; do
   n=$(basename $d)
   if [ $# -gt 0 ]; then ok=0; for p in "$@"; do case $n in $p*) ok=1;; esac; done; [ $ok = 1 ] || continue; fi
